@@ -57,11 +57,17 @@ type promCase struct {
 	StepMs int64     `json:"step_ms"`
 	TimeS  int64     `json:"time_s"`
 	Series []pSeries `json:"series"`
-	Lit    string    `json:"lit,omitempty"` // scalar: number literal instead of scalar(selector)
-	Str    evid.Str  `json:"str,omitempty"`
+	// Expr (range-matrix, instant-vector): 0 the plain selector, 1 `{a="b"} * 1` (the engine
+	// drops the metric name, values unchanged), 2 `sum by (grp) ({a="b"})` with one series per
+	// grp value (the result carries only grp, or no label at all when grp is empty)
+	Expr int      `json:"expr,omitempty"`
+	Lit  string   `json:"lit,omitempty"` // scalar: number literal instead of scalar(selector)
+	Str  evid.Str `json:"str,omitempty"`
 }
 
 const lookbackMs = 300000
+
+var promExprs = []string{`{a="b"}`, `{a="b"} * 1`, `sum by (grp) ({a="b"})`}
 
 var promKinds = []string{"range-matrix", "instant-vector", "instant-matrix", "scalar", "string"}
 
@@ -112,6 +118,9 @@ func genProm(rt *rapid.T) promCase {
 	if c.Kind == 3 {
 		n = 1
 	}
+	if c.Kind <= 1 {
+		c.Expr = rapid.SampledFrom([]int{0, 0, 1, 2}).Draw(rt, "expr")
+	}
 	fps := genFPs(rt, n, true)
 	keys := map[string]bool{}
 	for i := 0; i < n; i++ {
@@ -125,10 +134,35 @@ func genProm(rt *rapid.T) promCase {
 				s.Labels = append(s.Labels, KV{K: "__name__", V: "up"})
 			}
 		}
-		if k := mapKey(normMap(s.Labels)); keys[k] {
+		// the alphabetically first label with an EMPTY value (stored label documents may hold
+		// empty values; labelsGetter passes them on): any label skipping in a writer meets
+		// its comma logic here
+		if rapid.IntRange(0, 2).Draw(rt, "emptyfirst") == 0 {
+			has := false
+			for _, kv := range s.Labels {
+				has = has || kv.K == "AAA"
+			}
+			if !has {
+				s.Labels = append(s.Labels, KV{K: "AAA", V: ""})
+			}
+		}
+		if c.Expr == 2 {
+			g := fmt.Sprintf("g%d", i)
+			if i == 1 {
+				g = "" // grouped under the empty value: the result series has no label at all
+			}
+			var kept []KV
+			for _, kv := range s.Labels {
+				if kv.K != "grp" {
+					kept = append(kept, kv)
+				}
+			}
+			s.Labels = append(kept, KV{K: "grp", V: evid.Str(g)})
+		}
+		if k := mapKey(resultLabels(c.Expr, s.Labels)); keys[k] {
 			s.Labels = append(s.Labels, KV{K: fmt.Sprintf("series_%d", i), V: "x"})
 		}
-		keys[mapKey(normMap(s.Labels))] = true
+		keys[mapKey(resultLabels(c.Expr, s.Labels))] = true
 		if len(tsPool) > 0 {
 			want := rapid.IntRange(1, 6).Draw(rt, "nsamples")
 			if rapid.IntRange(0, 3).Draw(rt, "many") == 0 {
@@ -159,6 +193,31 @@ func genProm(rt *rapid.T) promCase {
 		c.Series = append(c.Series, s)
 	}
 	return c
+}
+
+// resultLabels is the label set of the result series for expression kind expr.
+func resultLabels(expr int, l []KV) map[string]string {
+	m := normMap(l)
+	// Prometheus data model: a label with an empty value is a label that is not set. The
+	// engine drops such labels whenever it rebuilds a label set (labels.Builder: expr 1, 2),
+	// the plain selector passes the stored ones through; a writer may render or omit them.
+	// Label sets are therefore compared modulo empty-valued labels.
+	for k, v := range m {
+		if v == "" {
+			delete(m, k)
+		}
+	}
+	switch expr {
+	case 1:
+		delete(m, "__name__")
+	case 2:
+		g, ok := m["grp"]
+		m = map[string]string{}
+		if ok && g != "" {
+			m["grp"] = g
+		}
+	}
+	return m
 }
 
 type promDoc struct {
@@ -277,7 +336,7 @@ func predProm(c promCase, o *evid.Obs) error {
 			}
 			return parsed[i-1].v, true
 		}
-		e := exp{fp: s.FP, key: mapKey(normMap(s.Labels))}
+		e := exp{fp: s.FP, key: mapKey(resultLabels(c.Expr, s.Labels))}
 		switch c.Kind {
 		case 0:
 			if c.StepMs <= 0 || c.EndS < c.StartS || c.StartS%15 != 0 || c.EndS%15 != 0 || (c.EndS-c.StartS)*1000/c.StepMs > 11000 {
@@ -315,12 +374,12 @@ func predProm(c promCase, o *evid.Obs) error {
 	case 0:
 		target = "/api/v1/query_range?"
 		q.Del("time")
-		q.Set("query", `{a="b"}`)
+		q.Set("query", promExprs[c.Expr%3])
 		q.Set("start", strconv.FormatInt(c.StartS, 10))
 		q.Set("end", strconv.FormatInt(c.EndS, 10))
 		q.Set("step", strconv.FormatFloat(float64(c.StepMs)/1000, 'f', -1, 64))
 	case 1:
-		q.Set("query", `{a="b"}`)
+		q.Set("query", promExprs[c.Expr%3])
 	case 2:
 		q.Set("query", `{a="b"}[5m]`)
 	case 3:
@@ -369,6 +428,22 @@ func predProm(c promCase, o *evid.Obs) error {
 	npts := 0
 	for _, w := range want {
 		npts += len(w.pts)
+	}
+	if c.Kind <= 1 {
+		o.Tag(fmt.Sprintf("expr:%d", c.Expr))
+	}
+	for _, s := range c.Series {
+		first := ""
+		raw := normMap(s.Labels)
+		for k := range raw {
+			if first == "" || k < first {
+				first = k
+			}
+		}
+		if c.Expr == 0 && first != "" && raw[first] == "" {
+			o.Tag("first-label-empty")
+			break
+		}
 	}
 	o.Tag("kind:"+promKinds[c.Kind], fmt.Sprintf("reported-series:%d", min(len(want), 3)), "samples:"+bucket(nsamples), "points:"+bucket(npts))
 	if esc {
@@ -443,6 +518,11 @@ func predProm(c promCase, o *evid.Obs) error {
 	for _, s := range series {
 		if s.Metric == nil {
 			return fmt.Errorf("series object without metric; body=%s", clip(resp.Body))
+		}
+		for lk, lv := range s.Metric {
+			if lv == "" {
+				delete(s.Metric, lk)
+			}
 		}
 		k := mapKey(s.Metric)
 		if _, dup := got[k]; dup {
